@@ -508,6 +508,54 @@ func runC05(c *Ctx) {
 		}
 	}()
 
+	// ---- C05.dst
+	rule = "C05.dst"
+	c.R.Rule(rule, "Writer.Compress sizes its output buffer from lz4.CompressBlockBound(len(src)) plus the header on every path (every method writes into the same buffer): a destination that can be smaller than the bound makes the block compressors report 0 bytes for incompressible input and an undecodable frame is emitted; the compressed length used for the frame comes from the compressor's result")
+	func() {
+		var sizeOK, found bool
+		for _, b := range wr.Blocks {
+			for _, in := range b.Instrs {
+				ms, ok := in.(*ssa.MakeSlice)
+				if !ok {
+					continue
+				}
+				found = true
+				isBound := func(v ssa.Value) bool {
+					_, ok := core.CallTo(v, func(f *types.Func) bool { return f.Name() == "CompressBlockBound" })
+					return ok
+				}
+				// every phi edge on the way must depend on the bound
+				var all func(v ssa.Value, d int) bool
+				all = func(v ssa.Value, d int) bool {
+					if d > 8 {
+						return false
+					}
+					if ph, ok := v.(*ssa.Phi); ok {
+						for _, e := range ph.Edges {
+							if !all(e, d+1) {
+								return false
+							}
+						}
+						return true
+					}
+					if bo, ok := v.(*ssa.BinOp); ok && bo.Op == token.ADD {
+						return all(bo.X, d+1) || all(bo.Y, d+1)
+					}
+					return isBound(v)
+				}
+				sizeOK = all(ms.Len, 0)
+			}
+		}
+		switch {
+		case !found:
+			c.R.Unk(rule, core.FuncName(wr), cfg, p.Pos(wr.Pos()), "output buffer allocation not found")
+		case !sizeOK:
+			c.R.Bad(rule, core.FuncName(wr), cfg, p.Pos(wr.Pos()), "the output buffer is not sized by CompressBlockBound(len(src)) on every path: with a smaller destination LZ4/LZ4HC return 0 for incompressible payloads and the frame cannot be decoded")
+		default:
+			c.R.Ok(rule, core.FuncName(wr), cfg, p.Pos(wr.Pos()), "len(Data) = CompressBlockBound(len(buf)) + header on every path")
+		}
+	}()
+
 	// ---- C05.frame
 	ruleFrameLayout(c, p, "C05.frame", rb, wr)
 	c.R.Assumptions = append(c.R.Assumptions,
